@@ -209,3 +209,30 @@ example : runFixed (Val := Nat) (Res := Nat) (Err := Unit) (fun v => .ok (v + 10
     = [(1, .ok 101), (5, .ok 105), (5, .ok 105)] := by rfl
 
 end MenpoModel.C09
+
+namespace MenpoModel.C09
+
+/-! ### PROPERTY: a transform whose `apply` writes none of its attributes is history independent -/
+
+/-- frame condition ⇒ purity: if applying never changes the instance state then, over every finite
+sequence of applications, each result is the stateless function of that call's input alone. -/
+theorem pure_of_no_writes {S I O} (m : Machine S I O) (hframe : ∀ s x, (m.step s x).1 = s)
+    (s : S) (xs : List I) : m.run s xs = xs.map (fun x => (m.step s x).2) := by
+  induction xs generalizing s with
+  | nil => rfl
+  | cons x xs ih => simp [Machine.run, hframe, ih]
+
+/-- … in particular calling again, or calling with other inputs in between, never changes an answer -/
+theorem pure_of_no_writes_interleaved {S I O} (m : Machine S I O) (hframe : ∀ s x, (m.step s x).1 = s)
+    (s : S) (pre mid : List I) (x : I) :
+    (m.run s (pre ++ x :: mid ++ [x])).getLast? = some (m.step s x).2 ∧
+    (m.run s (pre ++ [x]))[pre.length]? = some (m.step s x).2 := by
+  rw [pure_of_no_writes m hframe, pure_of_no_writes m hframe]
+  constructor
+  · rw [List.map_append, List.map_cons, List.map_nil]
+    exact List.getLast?_concat
+  · simp
+
+example : (⟨fun (s : Nat) (x : Nat) => (s, s + x)⟩ : Machine Nat Nat Nat).run 10 [1, 2, 1] = [11, 12, 11] := by rfl
+
+end MenpoModel.C09
